@@ -6,12 +6,6 @@
 pub struct U20; pub struct U32; pub struct U64; pub struct U128;
 pub struct GenericArray<T, N> { pub data: Vec<T>, pub _n: core::marker::PhantomData<N> }
 impl<N> View for GenericArray<u8, N> { type V = Seq<u8>; open spec fn view(&self) -> Seq<u8> { self.data@ } }
-// std::convert::AsRef<[u8]> (shadowed): the bytes a value exposes
-pub trait AsRef<T: ?Sized> { spec fn bytes_v(&self) -> Seq<u8>; fn as_ref(&self) -> (r: &[u8]) ensures r@ == self.bytes_v(); }
-impl AsRef<[u8]> for &[u8] { open spec fn bytes_v(&self) -> Seq<u8> { self@ } #[verifier::external_body] fn as_ref(&self) -> (r: &[u8]) { unimplemented!() } }
-impl AsRef<[u8]> for &mut [u8] { open spec fn bytes_v(&self) -> Seq<u8> { self@ } #[verifier::external_body] fn as_ref(&self) -> (r: &[u8]) { unimplemented!() } }
-impl AsRef<[u8]> for &Vec<u8> { open spec fn bytes_v(&self) -> Seq<u8> { self@ } #[verifier::external_body] fn as_ref(&self) -> (r: &[u8]) { unimplemented!() } }
-impl AsRef<[u8]> for Vec<u8> { open spec fn bytes_v(&self) -> Seq<u8> { self@ } #[verifier::external_body] fn as_ref(&self) -> (r: &[u8]) { unimplemented!() } }
 impl<N> AsRef<[u8]> for &GenericArray<u8, N> { open spec fn bytes_v(&self) -> Seq<u8> { self.data@ } #[verifier::external_body] fn as_ref(&self) -> (r: &[u8]) { unimplemented!() } }
 impl<N> AsRef<[u8]> for GenericArray<u8, N> { open spec fn bytes_v(&self) -> Seq<u8> { self.data@ } #[verifier::external_body] fn as_ref(&self) -> (r: &[u8]) { unimplemented!() } }
 impl<N> GenericArray<u8, N> {
